@@ -577,7 +577,7 @@ fn generated_under_zero_windows<const N: usize>(c: &mut Ctx) {
 pub fn run(c: &mut Ctx) {
     c.note(
         "rule",
-        json!("One case per (group in {G1,G2}, N in {1,2,3,5,8,13}, parameter source, parameter instance, message number; in the quick tier each message number meets one of two instances); inside, the four blinding-factor classes {0,1,q-1,random}. Sources: from_generators with random generators (odd instances repeat one generator), from_generators with generators a_i*B of known discrete logarithms (even instances small a_i), PedersenParameters::new (generators recovered from the wire form, fields h and gs[i]), ToPedersenParameters of a fresh public key (generators read from the key's wire form). Messages: numbers 0-3 constant class from {0,1,q-1,random}, 4-7 cyclic layouts, 8 one random coordinate, 9+ random class per coordinate. Per opening: to_element vs reference; verify_opening vs (reference == commitment) on the original opening, on every coordinate changed by +1 and to a random value (quick tier: +1 on every coordinate under the random and one rotating constant blinding-factor class, the random replacement on every coordinate under the random class, one rotating coordinate gets +1, -1 and random under every class, the last coordinate also -1; thorough tier: +1, -1, random and 0/1 everywhere), on the blinding factor +1 / random / negated, on a second commitment (this and the following checks under two of the four blinding-factor classes in the quick tier), on commitments decoded from a random element and from the identity, on the sum of two commitments with the summed opening, and (known discrete logarithms only) on two different openings that recompute to the same element, which must be accepted; additivity Com(m,r)+Com(m',r') = Com(m+m',r+r') against library and reference. Distinct = (group, N, source, instance, per-coordinate message classes, blinding-factor class, check)."),
+        json!("One case per (group in {G1,G2}, N in {1,2,3,5,8,13}, parameter source, parameter instance, message number; in the quick tier each message number meets one of two instances); inside, the four blinding-factor classes {0,1,q-1,random}. Sources: from_generators with random generators (odd instances repeat one generator), from_generators with generators a_i*B of known discrete logarithms (even instances small a_i), PedersenParameters::new (generators recovered from the wire form, fields h and gs[i]), ToPedersenParameters of a fresh public key (generators read from the key's wire form). Messages: numbers 0-3 constant class from {0,1,q-1,random}, 4-7 cyclic layouts, 8 one random coordinate, 9+ random class per coordinate. Per opening: to_element vs reference; verify_opening vs (reference == commitment) on the original opening, on every coordinate changed by +1 and to a random value (quick tier: +1 on every coordinate under the random and one rotating constant blinding-factor class, the random replacement on every coordinate under the random class, one rotating coordinate gets +1, -1 and random under every class, the last coordinate also -1; thorough tier: +1, -1, random and 0/1 everywhere), on the blinding factor +1 / random / negated, on a second commitment (this and the following checks under two of the four blinding-factor classes in the quick tier), on commitments decoded from a random element and from the identity, on the sum of two commitments with the summed opening, and (known discrete logarithms only) on two different openings that recompute to the same element, which must be accepted; additivity Com(m,r)+Com(m',r') = Com(m+m',r+r') against library and reference. Distinct = (group, N, source, instance, per-coordinate message classes, blinding-factor class, check). Added later: generated parameters under zero windows. Word-sized exponents and blinding factors; a second key sharing both generators read after the first; the negated opening."),
     );
     let insts = c.tier.pick(2usize, 4);
     let msgs = c.tier.pick(12usize, 26);
